@@ -176,15 +176,24 @@ def _elems(case: dict) -> int:
 
 
 def gen_case(rnd: random.Random, libs=("np",), with_provider: float = 0.25, with_ret: float = 0.5, tuples: float = 0.25,
-             optionals: float = 0.2, plain: float = 0.2) -> dict:
+             optionals: float = 0.2, plain: float = 0.2, opt_tuples: float = 0.0) -> dict:
     while True:
-        c = _gen_case(rnd, libs, with_provider, with_ret, tuples, optionals, plain)
+        c = _gen_case(rnd, libs, with_provider, with_ret, tuples, optionals, plain, opt_tuples)
         if _elems(c) <= MAX_ELEMS and reference(c).get("v") != "unknown":
             return c
 
 
+def _maybe_optional_tuple(rnd, h: dict, p: float) -> dict:
+    """typing.Optional[tuple[...]] / Union[tuple[...], None] around a tuple hint whose value is present: checked exactly as
+    the tuple hint.  (The PEP 604 spelling `tuple[...] | None` is a types.UnionType the library does not look into, and None
+    for such a hint is a plain TypeError - both outside the properties' quantifiers, DESIGN 8.)"""
+    if rnd.random() < p:
+        return {**H_opt(h), "spell": rnd.choice(["Optional", "Union[T,None]", "Union[None,T]"])}
+    return h
+
+
 def _gen_case(rnd: random.Random, libs=("np",), with_provider: float = 0.25, with_ret: float = 0.5, tuples: float = 0.25,
-              optionals: float = 0.2, plain: float = 0.2) -> dict:
+              optionals: float = 0.2, plain: float = 0.2, opt_tuples: float = 0.0) -> dict:
     prov = None
     pnames = {}
     if rnd.random() < with_provider:
@@ -216,7 +225,7 @@ def _gen_case(rnd: random.Random, libs=("np",), with_provider: float = 0.25, wit
                             v = V_NONE
                     elts.append(h)
                     vals.append(v)
-            params.append({"name": name, "hint": H_tuple(elts)})
+            params.append({"name": name, "hint": _maybe_optional_tuple(rnd, H_tuple(elts), opt_tuples)})
             args[name] = _record(rnd, V_tup(vals))
             continue
         h, v = gen_tensor_hint(c, list(libs))
@@ -239,7 +248,7 @@ def _gen_case(rnd: random.Random, libs=("np",), with_provider: float = 0.25, wit
                     h, v = gen_tensor_hint(c, list(libs))
                     elts.append(h)
                     vals.append(v)
-            case["ret"], case["retval"] = H_tuple(elts), _record(rnd, V_tup(vals))
+            case["ret"], case["retval"] = _maybe_optional_tuple(rnd, H_tuple(elts), opt_tuples), _record(rnd, V_tup(vals))
         else:
             h, v = gen_tensor_hint(c, list(libs))
             case["ret"], case["retval"] = h, v
@@ -263,6 +272,8 @@ def flatten(case: dict, phase: str = "all"):
             out.append({"name": name, "h": h, "opt": opt, "v": v, "path": path})
 
     def hint(pname: str, h: dict, v, root):
+        if h["k"] == "opt" and h["of"]["k"] == "tuple":
+            h = h["of"]          # Optional[tuple[...]] with a present value is the tuple hint
         if h["k"] == "tuple":
             elts = v["elts"] if isinstance(v, dict) and v.get("k") == "tup" else None
             for i, eh in enumerate(h["elts"]):
